@@ -37,6 +37,30 @@ def noncanonical_sd(r):
     return bytes([flags, r.getrandbits(8), r.getrandbits(8), r.getrandbits(8)]) + len(eb).to_bytes(4, "big") + bytes(eb) + len(ob).to_bytes(4, "big") + bytes(ob)
 
 
+def raw_config_option(r):
+    """Configuration option bytes written by hand (not by pysomeip's encoder): items "k=v", "k=" (present but empty value),
+    "k" (no value), "k=v=w", an empty key, optional garbage after the terminator."""
+    body = bytearray([0])
+    for _ in range(r.choice([0, 1, 1, 2, 3, 4])):
+        k = gen.cfg_str(r, 12, nonempty=True) if r.random() < 0.95 else ""
+        c = r.random()
+        if c < 0.3:
+            item = k + "="
+        elif c < 0.55:
+            item = k
+        elif c < 0.9:
+            item = k + "=" + gen.cfg_str(r, 10, allow_eq=True)
+        else:
+            item = k + "==" + gen.cfg_str(r, 4)
+        if not item:
+            continue
+        body += bytes([len(item)]) + item.encode("ascii")
+    body.append(0)
+    if r.random() < 0.15:
+        body += r.randbytes(r.randint(1, 4))
+    return (len(body)).to_bytes(2, "big") + bytes([1]) + bytes(body)
+
+
 def cycle(ctx, what, b, parse, build, conv_v, ops, someip=False, extra=None):
     """decode b; if accepted: encode, decode again, compare.  Records model cases."""
     res = conv.s_res(lambda: parse(b), lambda v: [conv_v(v[0]), bytes(v[1])])
@@ -64,7 +88,7 @@ def run(ctx):
     ctx.rule = ("accepted inputs reached (a) by mutating valid SOME/IP messages, SD payloads, SD entries and SD options (bit flips, field corruption, "
                 "option types 0x00-0xFF, protocol numbers 0-255, unknown flag bits, non-zero reserved bytes) and (b) by an independent non-canonical "
                 "SD encoder in the harness (unshared duplicates, permuted arrays, overlapping runs, unreferenced options, zero-count indexes, garbage "
-                "after config terminators); for every accepted input the implementation's decode/encode/decode cycle is checked and each step "
+                "after config terminators) and hand-written configuration options (k=v, k=, k, k=v=w); for every accepted input the implementation's decode/encode/decode cycle is checked and each step "
                 "compared with the model; non-trivial = distinct accepted input")
     ctx.assumptions = ["inputs are byte strings; SD entries are decoded with the number of options of their message"]
     ctx._cases, ctx._impl, ctx._descr = [], [], []
@@ -103,6 +127,9 @@ def run(ctx):
         ob = bytes(ob) + (r.randbytes(r.randint(0, 3)) if r.random() < 0.3 else b"")
         st = cycle(ctx, "SD option", ob, H.SOMEIPSDOption.parse, lambda v: v.build(), conv.s_opt, (202, 201))
         ctx.case(("opt", ob), nontrivial=st == "accepted", kind="option-" + st)
+        ob = raw_config_option(r)
+        st = cycle(ctx, "SD option", ob, H.SOMEIPSDOption.parse, lambda v: v.build(), conv.s_opt, (202, 201))
+        ctx.case(("opt", ob), nontrivial=st == "accepted", kind="raw-config-option-" + st)
         # SD entry
         nopt = r.choice([0, 1, 5, 255])
         e = gen.entry(r, [], 0)
